@@ -162,6 +162,21 @@ func goExecExtD(t []string) (string, bool) {
 		log := &keys.Log{}
 		ring := parseRing(t[2], t[3], t[4], t[5], t[6], log)
 		return dispatchAnswerD(&scriptReader{parseScriptD(t[8])}, ring, log, parseResolver(t[7])), true
+	case "bf.dispatchb": // size preops cap secrets ls lp ie lsig resolver script — the source already is a *bufio.Reader
+		log := &keys.Log{}
+		ring := parseRing(t[4], t[5], t[6], t[7], t[8], log)
+		rd := bufio.NewReaderSize(&scriptReader{parseScriptD(t[10])}, atoi(t[1]))
+		if t[2] != "-" {
+			for _, op := range strings.Split(t[2], ",") {
+				n := atoi(op[1:])
+				if op[0] == 'p' {
+					rd.Peek(n) // nolint
+				} else {
+					rd.Read(make([]byte, n)) // nolint
+				}
+			}
+		}
+		return dispatchAnswerD(rd, ring, log, parseResolver(t[9])), true
 	}
 	return "", false
 }
@@ -189,7 +204,8 @@ func dispatchCmp(g, m string) bool {
 
 // scriptOf cuts b into deliveries: mode "one", "bytes", "rand", "eofdata"
 // (the last delivery carries EOF), "fault:<k>" (a transient I/O error after k bytes),
-// "faultdata:<k>" (the error arrives together with the k-th byte), "empty" (empty reads in between)
+// "faultdata:<k>" (the error arrives together with the k-th byte), "empty" (empty reads in between),
+// "enderr" / "enderrdata" (the source ends in an I/O error instead of EOF, alone / with the last bytes)
 func scriptOf(r *prng.R, b []byte, mode string) string {
 	var es []string
 	add := func(d []byte, suffix string) {
@@ -239,6 +255,14 @@ func scriptOf(r *prng.R, b []byte, mode string) string {
 			add(nil, "!")
 		}
 		cut(b[k:], "")
+	case mode == "enderr": // every byte, then an I/O error instead of EOF
+		cut(b, "")
+		add(nil, "!")
+	case mode == "enderrdata": // the error arrives together with the last bytes
+		if len(b) == 0 {
+			add(nil, "!")
+		}
+		cut(b, "!")
 	default:
 		cut(b, "")
 	}
@@ -391,7 +415,10 @@ func genExtD(ctx *Ctx, emit func(Case)) {
 			emit(Case{Stream: "dispatch.model", Line: line, GoOut: out, Cmp: dispatchCmp,
 				Branch: fmt.Sprintf("%s/%s/%s/%s", mode, name, frag, strings.Fields(out)[0]+resClassD(out)),
 				Direct: func() string {
-					if (mode == "att" || mode == "det") && !strings.HasPrefix(out, "fail ") {
+					// (a flipped bit may hit the mode byte itself and turn a signature header into an encryption header:
+					// seen in the thorough tier, `02` → `00`; model and code agree on it, so the refusal predicate is for
+					// the variants that keep the header)
+					if (mode == "att" || mode == "det") && !strings.HasSuffix(name, "-flipped") && !strings.HasPrefix(out, "fail ") {
 						return fmt.Sprintf("ClassifyEncryptedStreamAndMakeDecoder does not refuse a %s message (%s): %s", mode, name, trunc(out, 100))
 					}
 					// same outcome as the direct entry point on the same bytes
@@ -404,20 +431,72 @@ func genExtD(ctx *Ctx, emit func(Case)) {
 					return ""
 				}})
 		}
-		// the same through the bufio machine over a script (clean fragmentations, and a
-		// fault inside the classified range: refused as "not saltpack")
-		for _, smode := range []string{"rand", "eofdata", fmt.Sprintf("fault:%d", r.Intn(len(m.msg)+1))} {
+		// the same through the bufio machine over a script: clean fragmentations; a fault inside the
+		// classified range (refused as "not saltpack"); a fault AFTER it, binary and armored, alone or with data
+		// (the decoder meets it); a source that delivers everything and ends in an error instead of EOF
+		big := specEnc(r, 1+k%2, specOpts{}, 6000)
+		if k%2 == 1 {
+			big = specSc(r, specOpts{}, 6000)
+		}
+		bt := strings.Fields(big.open(big.msg))
+		bigRing, bigRes := strings.Join(bt[2:7], " "), "none"
+		if big.mode == "sc" {
+			bigRing, bigRes = strings.Join(bt[1:6], " "), bt[6]
+		}
+		bigArm, _ := saltpack.Armor62Seal(big.msg, saltpack.MessageTypeEncryption, "")
+		type mcase struct {
+			smode, ring, res string
+			src              []byte
+			label            string
+		}
+		var mcs []mcase
+		for _, smode := range []string{"rand", "eofdata", fmt.Sprintf("fault:%d", r.Intn(len(m.msg)+1)), "enderr", "enderrdata",
+			fmt.Sprintf("faultdata:%d", 1+r.Intn(len(m.msg)))} {
+			src, label := m.msg, "bin"
+			if r.Bool() {
+				src, label = []byte(arm), "arm"
+			}
+			mcs = append(mcs, mcase{smode, ringSpec, resolver, src, m.mode + "/" + label})
+		}
+		// beyond the peeked 4096 bytes
+		for _, src := range [][]byte{big.msg, []byte(bigArm)} {
+			if ctx.Quick && k%6 != 0 {
+				break
+			}
+			label := big.mode + "/bigbin"
+			if len(src) != len(big.msg) {
+				label = big.mode + "/bigarm"
+			}
+			at := prng.Pick(r, 4096, 4097, 4200, 4096+r.Intn(len(src)-4096), len(src)-1, len(src))
+			for _, smode := range []string{prng.Pick(r, "enderr", "enderrdata"), fmt.Sprintf("%s:%d", prng.Pick(r, "fault", "faultdata"), at), prng.Pick(r, "rand", "eofdata")} {
+				if ctx.Quick && r.Intn(2) == 0 {
+					continue
+				}
+				mcs = append(mcs, mcase{smode, bigRing, bigRes, src, label})
+			}
+		}
+		for _, c := range mcs {
+			if strings.HasPrefix(c.smode, "fault") && len(c.src) > 4096 && !strings.Contains(c.label, "big") {
+				continue
+			}
+			line := fmt.Sprintf("bf.dispatchs %d %s %s %s", prng.Pick(r, 1, 100, 4096, 5000), c.ring, c.res, scriptOf(r, c.src, c.smode))
+			out := goExec(line)
+			emit(Case{Stream: "dispatch.machine", Line: line, GoOut: out, Cmp: dispatchCmp,
+				Branch: fmt.Sprintf("%s/%s/%s", c.label, strings.Split(c.smode, ":")[0], strings.Fields(out)[0]+resClassD(out))})
+		}
+		// the source handed in already is a *bufio.Reader (bufio.NewReader returns it unchanged when its buffer is >= 4096 bytes)
+		for i := 0; i < 2; i++ {
 			src := m.msg
 			if r.Bool() {
 				src = []byte(arm)
 			}
-			if strings.HasPrefix(smode, "fault") && len(src) > 4096 {
-				continue
-			}
-			line := fmt.Sprintf("bf.dispatchs %d %s %s %s", prng.Pick(r, 1, 100, 4096), ringSpec, resolver, scriptOf(r, src, smode))
+			size := prng.Pick(r, 4096, 4097, 8192, 65536, 100, 16)
+			pre := prng.Pick(r, "-", "p1", "p23", "p4096", fmt.Sprintf("p%d", size), "r0", "p10,p5000", "r1", "r7,p30")
+			smode := prng.Pick(r, "rand", "eofdata", "one", "enderr", fmt.Sprintf("fault:%d", r.Intn(len(src)+1)))
+			line := fmt.Sprintf("bf.dispatchb %d %s %d %s %s %s", size, pre, prng.Pick(r, 1, 100, 4096), ringSpec, resolver, scriptOf(r, src, smode))
 			out := goExec(line)
-			emit(Case{Stream: "dispatch.machine", Line: line, GoOut: out, Cmp: dispatchCmp,
-				Branch: fmt.Sprintf("%s/%s/%s", m.mode, strings.Split(smode, ":")[0], strings.Fields(out)[0]+resClassD(out))})
+			emit(Case{Stream: "dispatch.bufio-source", Line: line, GoOut: out, Cmp: dispatchCmp,
+				Branch: fmt.Sprintf("%s/size=%d/pre=%s/%s/%s", m.mode, size, pre, strings.Split(smode, ":")[0], strings.Fields(out)[0]+resClassD(out))})
 		}
 	}
 	// non-saltpack and short inputs
